@@ -242,3 +242,105 @@ Proof.
   destruct (M_utf16_units c) as [|u us]; [cbn in H; lia|].
   cbn [flat_map]. unfold be16. discriminate.
 Qed.
+
+(* ------------------------------------------------------------------ *)
+(* the other direction: well-formed UTF-16BE bytes survive Decode, Encode *)
+
+Lemma words_bytes_inverse b :
+  bytes_ok b = true -> Nat.even (length b) = true -> flat_map be16 (words_of_bytes b) = b.
+Proof.
+  revert b. fix IH 1. intros [|x [|y rest]] Hb He.
+  - reflexivity.
+  - discriminate.
+  - cbn [words_of_bytes flat_map]. unfold bytes_ok in Hb. cbn [forallb] in Hb.
+    rewrite !andb_true_iff in Hb. destruct Hb as [Hx [Hy Hr]]. unfold byte_ok in *.
+    rewrite IH; [|exact Hr|exact He].
+    unfold be16. cbn [app]. f_equal; [lia|]. f_equal. lia.
+Qed.
+
+Lemma encode_decoded_words n : forall ws,
+  (length ws <= n)%nat -> wf_utf16_words ws = true ->
+  flat_map (fun r => flat_map be16 (M_utf16_units r)) (map fix_rune (utf16_decode_words ws)) =
+  flat_map be16 ws.
+Proof.
+  induction n as [|n IH]; intros ws Hn Hwf.
+  - destruct ws; [reflexivity|cbn in Hn; lia].
+  - destruct ws as [|w tl]; [reflexivity|].
+    cbn [wf_utf16_words utf16_decode_words] in *. cbn [length] in Hn.
+    destruct (is_high w) eqn:Eh.
+    + destruct tl as [|l rest]; [discriminate|].
+      apply andb_true_iff in Hwf. destruct Hwf as [El Hrest]. rewrite El.
+      cbn [map flat_map length] in *.
+      rewrite (IH rest) by (try lia; exact Hrest).
+      unfold is_high, is_low in *.
+      set (c := (w - 55296) * 1024 + (l - 56320) + 65536).
+      assert (Hc : is_scalar c = true) by (apply scalar_spec; subst c; lia).
+      rewrite fix_rune_scalar by exact Hc.
+      unfold M_utf16_units.
+      destruct ((c <? 55296) || ((57344 <=? c) && (c <? 65536))) eqn:E1; [subst c; lia|].
+      destruct ((65536 <=? c) && (c <=? 1114111)) eqn:E2; [|subst c; lia].
+      cbn [flat_map]. rewrite app_nil_r, <- app_assoc. f_equal; [f_equal|f_equal; f_equal]; subst c; lia.
+    + destruct (is_low w) eqn:El; [discriminate|].
+      apply andb_true_iff in Hwf. destruct Hwf as [Hw Htl].
+      cbn [map flat_map]. rewrite (IH tl) by (try lia; exact Htl).
+      unfold is_high, is_low in *.
+      assert (Hc : is_scalar w = true) by (apply scalar_spec; lia).
+      rewrite fix_rune_scalar by exact Hc.
+      unfold M_utf16_units.
+      destruct ((w <? 55296) || ((57344 <=? w) && (w <? 65536))) eqn:E1; [|lia].
+      cbn [flat_map]. now rewrite app_nil_r.
+Qed.
+
+Lemma utf16_encode_decode b :
+  wf_utf16be b = true -> M_utf16_encode (M_utf16_decode b) = b.
+Proof.
+  unfold wf_utf16be. rewrite !andb_true_iff. intros [[Hb He] Hw].
+  unfold M_utf16_encode, M_utf16_decode.
+  rewrite (encode_decoded_words (length (words_of_bytes b))) by (try lia; exact Hw).
+  now apply words_bytes_inverse.
+Qed.
+
+(* and every encoder output is well-formed *)
+Lemma wf_words_units c ws :
+  is_scalar c = true -> wf_utf16_words ws = true ->
+  wf_utf16_words (map (fun u => u mod 65536) (M_utf16_units c) ++ ws) = true.
+Proof.
+  intros H Hws. apply scalar_spec in H. unfold M_utf16_units.
+  destruct ((c <? 55296) || ((57344 <=? c) && (c <? 65536))) eqn:E1.
+  - cbn [map app wf_utf16_words].
+    assert (E: c mod 65536 = c) by lia. rewrite E. unfold is_high, is_low.
+    destruct ((55296 <=? c) && (c <? 56320)) eqn:E2; [lia|].
+    destruct ((56320 <=? c) && (c <? 57344)) eqn:E3; [lia|].
+    rewrite Hws. destruct (c <? 65536) eqn:E4; [reflexivity|lia].
+  - destruct ((65536 <=? c) && (c <=? 1114111)) eqn:E2; [|lia].
+    cbn [map app wf_utf16_words].
+    set (w := (55296 + (c - 65536) / 1024 mod 1024) mod 65536).
+    set (l := (56320 + (c - 65536) mod 1024) mod 65536).
+    assert (Hw : 55296 <= w < 56320) by (subst w; lia).
+    assert (Hl : 56320 <= l < 57344) by (subst l; lia).
+    unfold is_high, is_low.
+    destruct ((55296 <=? w) && (w <? 56320)) eqn:E3; [|lia].
+    destruct ((56320 <=? l) && (l <? 57344)) eqn:E4; [|lia].
+    exact Hws.
+Qed.
+
+Lemma utf16_encode_length_even s : Nat.even (length (M_utf16_encode s)) = true.
+Proof.
+  unfold M_utf16_encode. induction s as [|c s IH]; cbn [flat_map]; [reflexivity|].
+  rewrite app_length.
+  assert (H : Nat.even (length (flat_map be16 (M_utf16_units c))) = true).
+  { induction (M_utf16_units c) as [|u us IHu]; cbn [flat_map]; [reflexivity|].
+    rewrite app_length, be16_length. cbn [plus Nat.even]. exact IHu. }
+  rewrite Nat.even_add, H, IH. reflexivity.
+Qed.
+
+Lemma utf16_encode_wellformed s :
+  forallb is_scalar s = true -> wf_utf16be (M_utf16_encode s) = true.
+Proof.
+  intros Hs. unfold wf_utf16be.
+  rewrite utf16_encode_bytes_ok, utf16_encode_length_even. cbn [andb].
+  induction s as [|c s IH]; [reflexivity|].
+  cbn [forallb] in Hs. apply andb_true_iff in Hs. destruct Hs as [Hc Hs].
+  unfold M_utf16_encode. cbn [flat_map]. fold (M_utf16_encode s).
+  rewrite words_of_bytes_units. apply wf_words_units; [exact Hc|now apply IH].
+Qed.
